@@ -468,6 +468,8 @@ template <class Mesh> RunResult HistRun<Mesh>::run() {
             exec_op(q);
             post_op(q, i);
             st.add("ops_executed");
+            // cost bound: once a replica holds a 65535-class mesh, every further op costs seconds under ASan - allow eight more, then end the run
+            { bool huge = false; for (auto &rp : reps) if (rp->m.n(BV) > 20000) huge = true; if (huge && ++ops_on_huge > 8) { st.add("probe_run_ended_by_huge_mesh_op_cap"); ++i; break; } }
             st.add("op_" + q.kind);
             tri.push_back(q.kind);
         }
